@@ -100,12 +100,18 @@ MovesJoinZ(h, kn) ==
                                                \o MapS(b, LAMBDA c : MMutate(i, <<KV("z", Case1D(Fn2("gt", Col(c), LitI(0)), LitI(1), LitI(0)))>>)) ELSE <<>>)
                      \o (IF NameFree(t, "y") THEN MapS(z, LAMBDA c : MMutate(i, <<KV("y", Fn2("add", CN("z"), LitI(1)))>>)) ELSE <<>>)
                      \o (IF z # <<>> THEN <<MAlias(i, t.name, FALSE), MAlias(i, t.name, TRUE)>> ELSE <<>>)
+                     \* the same kinds of column, hidden by a select before the join and read through the original reference after it
+                     \o (IF NameFree(t, "z") /\ ~(\E c \in Scope(t) : t.nm[c] = "z")
+                         THEN MapS(b, LAMBDA c : MMutate(i, <<KV("z", Agg("sum", Col(c)))>>)) \o <<MMutate(i, <<KV("z", LitI(1))>>)>> ELSE <<>>)
+                     \o (IF z # <<>> /\ a # <<>> THEN <<MSelect(i, <<Col(a[1])>>)>> ELSE <<>>)
         jm(i, j) == LET la == ColOf(h[i], "a") ra == ColOf(h[j], "a") IN
                     IF la # <<>> /\ ra # <<>>
                     THEN <<MJoin(i, j, <<Fn2("eq", Col(la[1]), Col(ra[1]))>>, "left", "_r"),
                            MJoin(i, j, <<Fn2("eq", Col(la[1]), Col(ra[1]))>>, "full", "_r")>>
+                         \o (IF ColOf(h[j], "z") = <<>> THEN <<MJoin(i, j, <<Fn2("eq", Col(la[1]), Col(ra[1]))>>, "inner", "_r")>> ELSE <<>>)
                     ELSE <<>>
-    IN  IF jc # 0 THEN <<>>
+        hid(t) == SetToSortSeq({c \in Scope(t) : c \in kn /\ c \notin VisSet(t) /\ t.ty[c] = "int" /\ c \notin Scope(h[1]) /\ c \notin Scope(h[2])}, <)
+    IN  IF jc # 0 THEN (IF "probe" \in VisNames(h[jc]) THEN <<>> ELSE MapS(hid(h[jc]), LAMBDA c : MMutate(jc, <<KV("probe", Col(c))>>)))
         ELSE pre(h[rc], rc) \o (IF lc = 1 THEN <<MMutate(1, <<KV("zl", Fn1("is_null", Col(ColOf(h[1], "b")[1])))>>)>> ELSE <<>>) \o jm(lc, rc)
 
 (* trimmed alphabet: an ordered / sliced / filtered / grouped-and-summarized side, then a join (SQL subquery rules for joins) *)
@@ -254,6 +260,8 @@ RefProbes(h, i, kn) ==
         \o <<MMutate(i, <<KV("probe", CN("a"))>>), MMutate(i, <<KV("probe", CN("b"))>>)>>
         \o MapS(Take(allInt, 2), LAMBDA c : MFilter(i, <<Fn1("is_not_null", Col(c))>>))
         \o (IF t.part = <<>> THEN MapS(Take(allInt, 2), LAMBDA c : MSelect(i, <<Col(c)>>)) ELSE <<>>)
+        \* drop through a reference: removes THAT column (nothing, if it is hidden - never the column that carries its old name now)
+        \o (IF t.part = <<>> THEN MapS(SelectSeq(Take(allInt, 3), LAMBDA c : Len(t.vis) >= 2 \/ c \notin VisSet(t)), LAMBDA c : MDrop(i, <<Col(c)>>)) ELSE <<>>)
 
 MovesRef(h, kn) ==
     LET i == IF Len(h) = 2 THEN 1 ELSE Len(h)
@@ -314,6 +322,22 @@ MovesRerootAgg(h, kn) ==
         ELSE MapS(g, LAMBDA c : MGroupBy(i, <<Col(c)>>, FALSE)) \o MapS(b, LAMBDA c : MSummarize(i, <<KV("s", Agg("max", Col(c)))>>))
              \o MapS(b, LAMBDA c : MFilter(i, <<Fn2("gt", Col(c), LitI(0))>>))
 
+(* the grouping state must survive collect() as the same COLUMNS, also when a grouping column was renamed (or its old name *)
+(* was taken over by another column) between group_by and collect                                                         *)
+MovesCollectG(h, kn) ==
+    LET i == Len(h)
+        t == h[i]
+        pset == {t.part[q] : q \in DOMAIN t.part}
+        iv == SelectSeq(VisOfTy(t, "int"), LAMBDA c : c \notin pset)
+        gv == SelectSeq(t.vis, LAMBDA c : c \in pset)
+    IN  IF "w" \in VisNames(t) \/ Summarized2(t) \/ iv = <<>> THEN <<>>
+        ELSE IF t.part = <<>> THEN MapS(ColOf(t, "g"), LAMBDA c : MGroupBy(i, <<Col(c)>>, FALSE))
+                                    \o (IF ColOf(t, "g") # <<>> /\ ColOf(t, "p") # <<>> THEN <<MGroupBy(i, <<Col(ColOf(t, "p")[1]), Col(ColOf(t, "g")[1])>>, FALSE)>> ELSE <<>>)
+        ELSE (IF gv # <<>> /\ NameFree(t, "k") THEN <<MRename(i, <<[c |-> Col(gv[1]), n |-> "k"]>>),
+                                                      MRename(i, <<[c |-> Col(gv[1]), n |-> t.nm[iv[1]]], [c |-> Col(iv[1]), n |-> t.nm[gv[1]]]>>)>> ELSE <<>>)
+             \o <<MCollect(i, TRUE), MCollect(i, FALSE)>>
+             \o <<MMutate(i, <<KV("w", Agg("sum", Col(iv[1])))>>), MSummarize(i, <<KV("s", Agg("sum", Col(iv[1])))>>)>>
+
 SrcHeapsOne == [k \in DOMAIN SrcPairs |-> <<SrcTables[SrcPairs[k][1]]>>]
 
 ---------------------------------------------------------------------------
@@ -366,7 +390,10 @@ EquivMoves(h, i) ==
         \* inner_join vs cross_join followed by filter
         \o (IF ra # <<>> /\ rb # <<>> /\ t.part = <<>> /\ t.root \cap r.root = {} /\ i # 2
             THEN MapS(<<Fn2("eq", Col(a), Col(ra[1])), Fn2("lt", Col(b), Col(rb[1])),
-                        Fn2("and", Fn2("eq", Col(a), Col(ra[1])), Fn2("ge", Col(b), Col(rb[1])))>>, LAMBDA on :
+                        Fn2("and", Fn2("eq", Col(a), Col(ra[1])), Fn2("ge", Col(b), Col(rb[1]))),
+                        \* the horizontal conjunction with three predicates (the last one decides)
+                        FnN("hall", <<Fn2("eq", Col(a), Col(ra[1])), Fn2("le", Col(a), Col(ra[1])), Fn2("ge", Col(b), Col(rb[1]))>>),
+                        Fn2("and", Fn2("and", Fn2("eq", Col(a), Col(ra[1])), Fn2("le", Col(a), Col(ra[1]))), Fn2("lt", Col(b), Col(rb[1])))>>, LAMBDA on :
                    MEquiv(i, "inner_vs_cross", <<MJoin(0, 2, <<on>>, "inner", "_r")>>, <<MCross(0, 2, "_r"), MFilter(0, <<on>>)>>, FALSE))
             ELSE <<>>)
         \* is_in(a, b) vs (x == a) | (x == b);  map vs the when / then chain
